@@ -110,6 +110,7 @@ def body(c):
             "bignat": lambda: vlib.run_tlc("common/MC_BigNat.tla", "common/MC_BigNat.cfg", workers=2, coverage=True, timeout=900),
             "registry": lambda: vlib.run_tlc("lex/MC_ScalarRegistry.tla", "lex/MC_ScalarRegistry.cfg", workers=2, coverage=True, timeout=900),
             "gen": lambda: vlib.run_tlc("lex/Gen_Scalars.tla", cfg, workers=4 if c.quick else 8, timeout=3000, keep_lines=60, xmx="8g"),
+            "build": lambda: vlib.build_harness(["c07"]),       # cargo is mostly waiting for locks: overlap it with TLC
         })
         for k, what in (("bignat", "BigNat.tla"), ("registry", "ScalarRegistry.tla"), ("gen", "Scalars.tla (self-consistency invariants)")):
             if m_runs[k].invariant_violated:
@@ -123,55 +124,76 @@ def body(c):
         c.add_tlc("M ScalarRegistry (8 user types, all registration orders)", m_runs["registry"])
         g = m_runs["gen"]
         c.add_tlc("G cases + spec self-consistency (Full16=%s)" % full16, g)
-        rows = sorted(set(t[1] for t in g.tagged("REPLAY")))
-        rows = [json.loads(x) for x in rows]
-        n_gen = len(rows)
-        if n_gen < 10000:
-            raise vlib.ToolError("generator produced only %d cases" % n_gen)
+        lines = sorted(set(t[1] for t in g.tagged("REPLAY")))      # JSON texts printed by TLC, kept as text
+        g.tuples = []
+        if len(lines) < 10000:
+            raise vlib.ToolError("generator produced only %d cases" % len(lines))
         rng = random.Random(c.seed)
-        rows += random_cases(rng, 60 if c.quick else 1500, 150 if c.quick else 3000)
-    vlib.write_ndjson(c.path("cases.ndjson"), rows)
+        lines += [json.dumps(x, separators=(",", ":")) for x in random_cases(rng, 60 if c.quick else 1500, 150 if c.quick else 3000)]
+        with open(c.path("cases.ndjson"), "w") as f:
+            for ln in lines:
+                f.write(ln + "\n")
+        n_cases = len(lines)
+        del lines
+    if c.replay:
+        vlib.write_ndjson(c.path("cases.ndjson"), rows)
+        n_cases = len(rows)
     (binary,) = vlib.build_harness(["c07"])
-    p = vlib.run_harness(binary, [c.path("cases.ndjson"), c.path("trace.ndjson")], timeout=1800)
+    p = vlib.run_harness(binary, [c.path("cases.ndjson"), c.path("trace.ndjson")], timeout=3000)
     if p.returncode != 0:
         raise vlib.ToolError("c07 harness failed: " + p.stderr[-2000:])
-    cases = vlib.read_ndjson(c.path("trace.ndjson"))
-    if len(cases) != len(rows):
-        raise vlib.ToolError("harness wrote %d observations for %d cases" % (len(cases), len(rows)))
-    # mode V, in slices so that one TLC run never holds more than ~150k records
-    verdicts, drift = {}, {}
+    # mode V in slices (one TLC run never holds more than `step` records); everything is streamed
     step = 150000
-    for lo in range(0, len(cases), step):
-        part = c.path("trace_%d.ndjson" % (lo // step))
-        vlib.write_ndjson(part, cases[lo:lo + step])
+    parts = []
+    with open(c.path("trace.ndjson")) as f:
+        out, n = None, 0
+        for ln in f:
+            if n % step == 0:
+                if out:
+                    out.close()
+                parts.append(c.path("trace_%d.ndjson" % (n // step)))
+                out = open(parts[-1], "w")
+            out.write(ln)
+            n += 1
+        if out:
+            out.close()
+    if n != n_cases:
+        raise vlib.ToolError("harness wrote %d observations for %d cases" % (n, n_cases))
+    seen, by_v, n_verdicts = {}, {}, 0
+    for pi, part in enumerate(parts):
         v = vlib.run_tlc("lex/ScalarsTrace.tla", "lex/ScalarsTrace.cfg", env={"TRACE": part}, workers=8, timeout=3000,
                          keep_lines=50, xmx="8g")
-        for t in v.tagged("VERDICT"):
-            verdicts[t[1]] = t[2]
-            drift[t[1]] = t[3]
-        if lo == 0:
+        verdicts = {t[1]: (t[2], t[3]) for t in v.tagged("VERDICT")}
+        n_verdicts += len(verdicts)
+        if pi == 0:
             c.add_tlc("V ScalarsTrace (first slice)", v)
-    if len(verdicts) != len(cases):
-        raise vlib.ToolError("V produced %d verdicts for %d cases" % (len(verdicts), len(cases)))
-    seen = {}
-    for case in cases:
-        key = {"T": case["T"], "dir": case["dir"], "v": case["v"]}
-        c.count_case(key, True)
-        vd = verdicts[case["id"]]
-        slim = dict(case)
-        slim["shown"] = show(case["v"])
-        c.verdict(vd, slim, "%s %s %s: observation differs from Scalars.tla (%s)" % (case["T"], case["dir"], show(case["v"]), case["note"]))
-        if drift[case["id"]] is True:
-            c.drift("%s %s %s: ScalarImpl model disagrees with the library" % (case["T"], case["dir"], show(case["v"])))
-        s = seen.setdefault((case["T"], case["dir"]), [0, 0, 0])
-        if case["dir"] == "out":
-            s[2] += 1 if case["built"] else 0
-        else:
-            s[0 if case["acc"] else 1] += 1
+        v.tuples = []
+        with open(part) as f:
+            for ln in f:
+                case = json.loads(ln)
+                if case["id"] not in verdicts:
+                    raise vlib.ToolError("V produced no verdict for case %s" % case["id"])
+                vd, dr = verdicts[case["id"]]
+                c.count_case({"T": case["T"], "dir": case["dir"], "v": case["v"]}, True)
+                if vd != "ok":
+                    slim = dict(case)
+                    slim["shown"] = show(case["v"])
+                    c.verdict(vd, slim, "%s %s %s: observation differs from Scalars.tla (%s)" % (case["T"], case["dir"], show(case["v"]), case["note"]))
+                if dr is True:
+                    c.drift("%s %s %s: ScalarImpl model disagrees with the library" % (case["T"], case["dir"], show(case["v"])))
+                s = seen.setdefault((case["T"], case["dir"]), [0, 0, 0])
+                if case["dir"] == "out":
+                    s[2] += 1 if case["built"] else 0
+                else:
+                    s[0 if case["acc"] else 1] += 1
+                by_v.setdefault(vd, case)
+                if c.replay:
+                    print("REPLAY verdict=%s drift=%s observation=%s" % (vd, dr, json.dumps(case)))
+    if n_verdicts != n_cases:
+        raise vlib.ToolError("V produced %d verdicts for %d cases" % (n_verdicts, n_cases))
     if c.replay:
-        for case in cases:
-            print("REPLAY verdict=%s drift=%s observation=%s" % (verdicts[case["id"]], drift[case["id"]], json.dumps(case)))
-    else:
+        sys.exit(1 if c.violations else 0)      # a replay is one case: no evidence file, no vacuity accounting
+    if not c.replay:
         # vacuity: every type saw an accepted and a refused offer on every route, and a serialised value
         for t in ALL_TYPES:
             for d in ("in", "lit", "var"):
@@ -180,7 +202,7 @@ def body(c):
                     raise vlib.ToolError("vacuity: %s via %s has %d accepted and %d refused offers" % (t, d, a, r))
             if seen.get((t, "out"), [0, 0, 0])[2] == 0:
                 raise vlib.ToolError("vacuity: no Rust value of %s was serialised" % t)
-    c.cov["traces_validated_against_impl"] = len(cases)
+    c.cov["traces_validated_against_impl"] = n_cases
     c.cov["exhaustive"] = not c.quick
     c.cov["rule"] = ("G (TLC, Gen_Scalars.tla): for each of the 27 scalar mappings and each route (InputType::parse, literal and variable "
                      "through Schema::execute, to_value+parse) every integer of -130..257 for the 8-bit types and NonZero forms, %s for the "
@@ -190,9 +212,6 @@ def body(c):
                      "plus seeded random integers of 0..70 bits and random Unicode strings from the driver.  Every case is an offer or a "
                      "round trip, hence non-trivial; distinct by (type, route, value)."
                      % ("every integer of -32770..65537" if not c.quick else "every 257th integer of -32770..65537 and all within 24 of a boundary"))
-    by_v = {}
-    for case in cases:
-        by_v.setdefault(verdicts[case["id"]], case)
     for vd, case in sorted(by_v.items()):
         c.sample({"T": case["T"], "route": case["dir"], "value": show(case["v"]), "offered_as": case["note"], "accepted": case["acc"],
                   "is_valid": case["valid"], "resolver_calls": case["calls"], "errors": case["errs"],
